@@ -59,6 +59,7 @@ pub fn lookup(name: &str) -> Option<(&'static str, ScenFn)> {
     Some(match name {
         "xfer" => (XFER_RULE, xfer as ScenFn),
         "amp" => (AMP_RULE, amp as ScenFn),
+        "close" => (CLOSE_RULE, close as ScenFn),
         _ => return None,
     })
 }
@@ -415,6 +416,251 @@ pub fn amp(seed: u64, out: &mut Outcome) {
         }
         for (i, (o, m)) in sim.model_ops.iter().zip(sim.model_impl.iter()).enumerate() {
             eprintln!("{i}: {o} => {m}");
+        }
+    }
+    for f in sim.fails.drain(..) {
+        out.fails.push(format!("{f} seed={seed}"));
+    }
+    out.take_trace(seed, &mut sim);
+}
+
+pub const CLOSE_RULE: &str = "one execution = handshake + transfer under a random network, then one terminating action at a random step of the exchange: local close by client/server/both (with code and reason), the peer vanishing (all its datagrams dropped from then on), the peer endpoint being replaced by a fresh one (stateless resets), or nothing (idle timeout with/without keep-alive); afterwards the run continues for 90 s of virtual time. Oracles (C08): ConnectionLost reported at most once per connection and never for a purely local close; the peer of a closer learns the close with the closer's code/reason (over a path that still delivers); Drained endpoint event exactly once and within 3 PTO of closing; no output after drained; TimedOut no earlier than the idle timeout after the last datagram received; no idle timeout while keep-alives flow; the closing packet is emitted by the first poll_transmit after close() whatever the congestion state; non-trivial = the terminating action happened after the handshake completed";
+
+pub fn close(seed: u64, out: &mut Outcome) {
+    let mut rng = Rng::new(seed ^ 0xc105e);
+    let (mut tc, _) = random_transport(&mut rng);
+    let (mut ts, _) = random_transport(&mut rng);
+    let idle_ms = *rng.pick(&[2_000u64, 10_000, 30_000]);
+    for t in [&mut tc, &mut ts] {
+        t.max_idle_timeout(Some(IdleTimeout::try_from(Duration::from_millis(idle_ms)).unwrap()));
+        t.max_concurrent_bidi_streams(VarInt::from_u32(100));
+        t.max_concurrent_uni_streams(VarInt::from_u32(100));
+    }
+    let keep_alive = rng.chance(1, 3);
+    if keep_alive {
+        tc.keep_alive_interval(Some(Duration::from_millis(idle_ms / 4)));
+    } else {
+        tc.keep_alive_interval(None);
+        ts.keep_alive_interval(None);
+    }
+    let (mut sim, ccfg) = default_pair(seed, tc, ts);
+    sim.model_trace = true;
+    sim.net = random_net(&mut rng);
+    sim.net.path_mtu = sim.net.path_mtu.max(1400);
+    sim.net.drop_permille = sim.net.drop_permille.min(100);
+    sim.net.corrupt_permille = 0;
+    sim.net.truncate_permille = 0;
+    sim.net.replay_permille = 0;
+    let mut w = Workload::new(seed);
+    w.sides[CLIENT].plans = Workload::random_plans(&mut rng, 3, 400_000);
+    w.sides[SERVER].plans = Workload::random_plans(&mut rng, 2, 100_000);
+    let cch = sim.connect(ccfg);
+    w.ch[CLIENT] = Some(cch);
+    // 0 client close, 1 server close, 2 both, 3 client vanishes, 4 server vanishes, 5 server endpoint replaced, 6 nothing (idle),
+    // 7 server closes and its endpoint restarts at once, 8 client closes and the server endpoint restarts at once
+    let action = rng.below(9);
+    let act_step = rng.range(1, 120);
+    let mut acted_at: Option<u64> = None;
+    let mut acted_after_handshake = false;
+    let code = rng.below(1000) as u32;
+    let reason: Vec<u8> = rng.bytes(rng.clone().below(40) as usize);
+    let mut close_tx_ok: Vec<(usize, bool)> = Vec::new();
+    let mut closer_had_hs_keys = [false; 2];
+    let mut vanished: Option<usize> = None;
+    let horizon = 90_000_000_000u64;
+    let end = sim.run_until(horizon * 3, 300_000, |sim| {
+        if w.ch[SERVER].is_none() {
+            if let Some(&ch) = sim.nodes[SERVER].accepted.first() {
+                w.ch[SERVER] = Some(ch);
+            }
+        }
+        w.tick(sim);
+        if acted_at.is_none() && sim.steps >= act_step && (w.ch[SERVER].is_some() || sim.steps > act_step + 50) {
+            acted_at = Some(sim.now);
+            acted_after_handshake = sim.nodes[CLIENT].conns[&cch].obs.connected;
+            let sch = w.ch[SERVER];
+            let mut do_close = |sim: &mut Sim, node: usize, ch: usize| {
+                let now = sim.t();
+                if sim.conn(node, ch).is_closed() {
+                    return;
+                }
+                let b = sim.snap(node, ch);
+                sim.conn(node, ch).close(now, VarInt::from_u32(code), reason.clone().into());
+                let a = sim.snap(node, ch);
+                let pto3 = a.timers[2].map_or(0, |t| sim.off(t).saturating_sub(sim.now));
+                sim.model_ops.push(format!("life close {} {pto3} {}", sim.now, life_state(sim.base, &b)));
+                sim.model_impl.push(life_state(sim.base, &a));
+                sim.nodes[node].conns.get_mut(&ch).unwrap().obs.closed_locally_at = Some(sim.now);
+                // C08: the close is announced at once, whatever the congestion/pacing state
+                let before = sim.snap(node, ch);
+                closer_had_hs_keys[node] = before.spaces[0].has_keys || before.spaces[1].has_keys;
+                let mut buf = Vec::new();
+                let t = sim.conn(node, ch).poll_transmit(now, 1, &mut buf);
+                let blocked_by_amp = !before.path.validated && before.path.total_sent >= 3 * before.path.total_recvd;
+                let has_keys = before.spaces.iter().any(|s| s.has_keys);
+                match t {
+                    Some(t) => {
+                        close_tx_ok.push((node, true));
+                        let data = buf[..t.size].to_vec();
+                        let from = sim.nodes[node].addr;
+                        *sim.nodes[node].sent_to.entry(t.destination).or_default() += t.size as u64;
+                        sim.send_wire(node, from, t.destination, t.ecn, data);
+                    }
+                    None => {
+                        if has_keys && !blocked_by_amp {
+                            close_tx_ok.push((node, false));
+                            sim.fail(
+                                "close-not-announced-at-once",
+                                format!("node {node}: poll_transmit right after close() returned None (in_flight {} cwnd {} state {})", before.path.in_flight_bytes, before.path.cwnd, before.state),
+                            );
+                        }
+                    }
+                }
+            };
+            match action {
+                0 => do_close(sim, CLIENT, cch),
+                1 => {
+                    if let Some(s) = sch {
+                        do_close(sim, SERVER, s)
+                    }
+                }
+                2 => {
+                    do_close(sim, CLIENT, cch);
+                    if let Some(s) = sch {
+                        do_close(sim, SERVER, s)
+                    }
+                }
+                3 | 4 => {
+                    let who = if action == 3 { CLIENT } else { SERVER };
+                    vanished = Some(who);
+                    let a = sim.nodes[who].addr;
+                    sim.wire.retain(|d| d.from != a);
+                    sim.wire_filter = Some(Box::new(move |d: &mut Dgram, _r: &mut Rng| d.from != a));
+                }
+                5 | 7 | 8 => {
+                    if action == 7 {
+                        if let Some(s) = sch {
+                            do_close(sim, SERVER, s)
+                        }
+                    }
+                    if action == 8 {
+                        do_close(sim, CLIENT, cch);
+                    }
+                    // the server process restarts: fresh endpoint with the same reset key, all state lost
+                    let clock = sim.clock.clone();
+                    let fresh = quinn_proto::Endpoint::new(
+                        std::sync::Arc::new(endpoint_config(seed ^ 1, 8, None)),
+                        Some(std::sync::Arc::new(server_config(seed, TransportConfig::default(), &clock))),
+                        true,
+                    );
+                    sim.nodes[SERVER].ep = fresh;
+                    for c in sim.nodes[SERVER].conns.values_mut() {
+                        c.removed = true;
+                    }
+                    vanished = Some(SERVER);
+                }
+                _ => {}
+            }
+        }
+        acted_at.is_some_and(|t| sim.now > t + horizon)
+    });
+    let acted = acted_at.unwrap_or(0);
+    // ---- oracles
+    let idle_ns = idle_ms * 1_000_000;
+    for node in 0..2 {
+        let peer = 1 - node;
+        let chs: Vec<usize> = sim.nodes[node].conns.keys().cloned().collect();
+        for ch in chs {
+            let (lost, drained_events, closed_local, drained_at, removed) = {
+                let nc = &sim.nodes[node].conns[&ch];
+                (nc.obs.lost.clone(), nc.obs.drained_events, nc.obs.closed_locally_at, nc.obs.drained_at, nc.removed)
+            };
+            if removed {
+                continue;
+            }
+            if lost.len() > 1 {
+                let kinds: Vec<&str> = lost.iter().map(|l| l.trim_start_matches("ConnectionLost(").split(|c| c == '(' || c == ')' || c == ' ').next().unwrap_or("")).collect();
+                sim.fail(&format!("lost-reported-twice:{}", kinds.join("+")), format!("node {node}: {lost:?}"));
+            }
+            if drained_events > 1 {
+                sim.fail("drain-notified-twice", format!("node {node} conn {ch}"));
+            }
+            let sn = sim.snap(node, ch);
+            if closed_local.is_some() && !lost.is_empty() {
+                // a local close reports nothing at the protocol layer
+                let peer_closed_too = action == 2;
+                let k = if lost[0].contains("Reset") { "lost-after-local-close:reset" } else if peer_closed_too { "" } else { "lost-after-local-close:other" };
+                if !k.is_empty() {
+                    sim.fail(k, format!("node {node} closed locally yet polled {lost:?}"));
+                }
+            }
+            if let Some(t0) = closed_local {
+                // drained within 3 PTO (pto at most: 3 * (srtt + 4 rttvar + max_ack_delay) -- we bound by observed pto * 3 with slack for backoff-free close timer)
+                let pto_max = sn.pto.iter().max().unwrap().as_nanos() as u64;
+                match drained_at {
+                    Some(td) => {
+                        if td > t0 + 3 * pto_max + 1_000_000 {
+                            sim.fail("drain-later-than-3pto", format!("node {node}: closed at {t0}, drained at {td}, 3*pto = {}", 3 * pto_max));
+                        }
+                    }
+                    None => sim.fail("drain-never", format!("node {node}: closed at {t0}, never drained by {}", sim.now)),
+                }
+            }
+            if sn.state != "drained" && acted_at.is_some() && action != 6 {
+                // whatever happened, 90 s later everything must have drained (idle timeout <= 30 s)
+                sim.fail("drain-never", format!("node {node} conn {ch} still {} at the end (action {action})", sn.state));
+            }
+            // peer learns the close and its reason (path still delivers, nobody vanished)
+            if let (Some(_), None, Some(pch)) = (closed_local, vanished, w.ch[peer]) {
+                if action != 2 && action != 7 && acted_after_handshake {
+                    let pl = sim.nodes[peer].conns[&pch].obs.lost.clone();
+                    let want = format!("error_code: {code}");
+                    // the generic APPLICATION_ERROR is what a closer announces in the Initial/Handshake spaces,
+                    // which it must still use while it holds those keys
+                    let generic_ok = closer_had_hs_keys[node] && pl.len() == 1 && pl[0].contains("APPLICATION_ERROR");
+                    if !generic_ok && (pl.len() != 1 || !(pl[0].contains("ApplicationClosed") && pl[0].contains(&want))) {
+                        sim.fail("close-reason-not-delivered", format!("node {node} closed with code {code}; peer polled {pl:?}"));
+                    }
+                }
+            }
+            // idle timeout bounds
+            for l in &lost {
+                if l.contains("TimedOut") {
+                    if keep_alive && vanished.is_none() && action == 6 {
+                        sim.fail("idle-timeout-despite-keep-alive", format!("node {node}: {l}"));
+                    }
+                    let (last_rx, last_tx) = { let o = &sim.nodes[node].conns[&ch].obs; (o.last_authed_rx_at.unwrap_or(0), o.last_tx_at.unwrap_or(0)) };
+                    if let Some(td) = drained_at {
+                        // no earlier than the negotiated idle timeout after the last datagram received
+                        if td < last_rx + idle_ns {
+                            sim.fail("idle-timeout-too-early", format!("node {node}: last authenticated datagram received at {last_rx}, TimedOut at {td}, idle timeout {idle_ns}"));
+                        }
+                        // no later than max(idle, 3 PTO) after the last event that may restart the timer
+                        let pto_max = sn.pto.iter().max().unwrap().as_nanos() as u64;
+                        let bound = last_rx.max(last_tx) + idle_ns.max(3 * pto_max) + 2_000_000 + sim.drv.late_ns;
+                        if td > bound {
+                            sim.fail("idle-timeout-too-late", format!("node {node}: last rx {last_rx} last tx {last_tx}, TimedOut at {td} > {bound}"));
+                        }
+                    }
+                }
+            }
+        }
+    }
+    out.runs += 1;
+    out.evaluations += sim.steps;
+    if acted_after_handshake {
+        out.nontrivial += 1;
+    }
+    out.count(&format!("action:{action}"), 1);
+    out.count(&format!("end:{end:?}"), 1);
+    out.count("close-announced-checks", close_tx_ok.len() as u64);
+    if out.samples.len() < 3 {
+        let l: Vec<_> = (0..2).map(|n| sim.nodes[n].conns.values().map(|c| (c.obs.lost.clone(), c.obs.drained_events, c.obs.closed_locally_at, c.obs.drained_at)).collect::<Vec<_>>()).collect();
+        out.samples.push(format!("seed {seed}: action {action} at step {act_step} (t={acted}ns, after handshake: {acted_after_handshake}), idle {idle_ms}ms keep_alive {keep_alive}; per node (lost, drained events, closed at, drained at): {l:?}"));
+    }
+    if std::env::var("VERIF_SIM_VERBOSE").is_ok() {
+        for r in sim.trace.iter().filter(|r| !matches!(r, Rec::Tx { .. })) {
+            eprintln!("{r:?}");
         }
     }
     for f in sim.fails.drain(..) {
